@@ -142,6 +142,7 @@ SPECS["Message::serialise"] = {"props": ["C04"], "contract": """    requires msg
         r is Ok ==> final(buffer).bytes().len() >= 12, // [C04:at_least_header]
         r is Ok ==> header_written(final(buffer).bytes(), self.header), // [C04:header_layout]
         r is Ok ==> counts_written(final(buffer).bytes(), *self), // [C04:counts_are_section_lengths]
+        self.questions@.len() <= 0xffff && self.answers@.len() == 0 && self.authority@.len() == 0 && self.additional@.len() == 0 ==> r is Ok, // [C04:a_message_without_records_always_serialises]
 """,
     "loops": {str(k): {"kw": "for", "iter_name": "it__", "spec": """            invariant msg_names_wf(*self), buffer.table_good(), buffer.bytes().len() >= 12, is_prefix(hdr12__@, buffer.bytes()), hdr12__@.len() == 12, header_written(hdr12__@, self.header), counts_written(hdr12__@, *self),"""}
               for k in range(4)},
@@ -149,7 +150,8 @@ SPECS["Message::serialise"] = {"props": ["C04"], "contract": """    requires msg
 SPECS["Message::to_octets"] = {"props": ["C04"], "contract": """    requires msg_names_wf(*self),
     ensures r is Ok ==> bmv(&r->Ok_0).len() >= 12, // [C04:at_least_header]
         r is Ok ==> header_written(bmv(&r->Ok_0), self.header), // [C04:header_layout]
-        r is Ok ==> counts_written(bmv(&r->Ok_0), *self), // [C04:counts_are_section_lengths]"""}
+        r is Ok ==> counts_written(bmv(&r->Ok_0), *self), // [C04:counts_are_section_lengths]
+        self.questions@.len() <= 0xffff && self.answers@.len() == 0 && self.authority@.len() == 0 && self.additional@.len() == 0 ==> r is Ok, // [C04:a_message_without_records_always_serialises]"""}
 
 
 def build(G):
